@@ -23,7 +23,16 @@ var headerRE = regexp.MustCompile(`^\[(.+) - (\d+)\]$`)
 // body line can be taken for a header, a terminator or the escape token.
 func Parseable(f *model.MFile) bool {
 	for _, e := range f.Entries {
-		if !e.Text.Known || !PlainText(e.Text.S) {
+		if !e.Text.Known {
+			// opaque texts exist only for JSON/YAML mappings rewritten by matchers (and
+			// marshalled YAML values): their lines start with a key, a brace or
+			// indentation, never with '[' and never equal the terminator
+			if strings.HasPrefix(e.Text.Key, "json:") || strings.HasPrefix(e.Text.Key, "yaml:") || strings.HasPrefix(e.Text.Key, "yaml-go:") {
+				continue
+			}
+			return false
+		}
+		if !PlainText(e.Text.S) {
 			return false
 		}
 	}
